@@ -27,6 +27,7 @@ type CronStore struct {
 	mutators            mutator.MutatorStore
 	entries             map[serializable]*Entry
 	clock               mockable.Clock
+	isTimerStarted      bool
 }
 
 func NewCronStore(entries []*Entry) (*CronStore, error) {
@@ -208,7 +209,7 @@ func (c *CronStore) resetTimer() {
 		}
 	}
 
-	if c.schedule.Len() > 0 {
+	if c.isTimerStarted && c.schedule.Len() > 0 {
 		c.clock.Reset(c.schedule.Peek().Task.ScheduledAt.Sub(c.clock.Now()))
 	}
 }
@@ -221,12 +222,14 @@ func (c *CronStore) StartTimer(ctx context.Context) {
 	c.mu.Lock()
 	defer c.mu.Unlock()
 
+	c.isTimerStarted = true
 	c.resetTimer()
 }
 
 func (c *CronStore) StopTimer() {
 	c.mu.Lock()
 	defer c.mu.Unlock()
+	c.isTimerStarted = false
 	c.stopTimer()
 }
 
